@@ -12,12 +12,15 @@ def check(run):
     ncases = sum(1 for _ in open(cases))
     run.vh(["rt", "json", cases, run.path("g_trace.ndjson")])
     n = rtcommon.judge(run, run.path("g_trace.ndjson"), "json-rt", "model cases")
+    nr, depth = (12000, 4) if thorough else (1200, 3)
+    run.vh(["rt-drive", "json", nr, depth, run.path("v_trace.ndjson")])
+    n += rtcommon.judge(run, run.path("v_trace.ndjson"), "json-rt", "random deep values")
     with open(cases) as f:
         for i, l in enumerate(f):
             if i % 1500 == 9:
                 run.sample(json.loads(l))
     run.cov.update(evaluations=n, distinct_nontrivial=ncases, exhaustive=True, traces_validated_against_impl=n,
-                   rule="G: case families of Cases.tla (OneField: every Go type x own property x value shape; Nested1: every Go type "
+                   rule="V: random values of every Go type with random property subsets nested to depth <=4, judged the same way; G: case families of Cases.tla (OneField: every Go type x own property x value shape; Nested1: every Go type "
                         "embedded in item/list/object/items positions and nested twice; Pairwise on %s; Full; top-level IRI and lists), "
                         "each through ap.MarshalJSON/ap.UnmarshalJSON and T.MarshalJSON/(*T).UnmarshalJSON; decoded value projected by "
                         "reflection and compared by JsonRTTrace.tla with NFItem(input)" % ("all types" if thorough else "Object, Place, Link"))
